@@ -24,3 +24,12 @@ chk("C13",
     "All ordered entry sequences up to the bound over the key-length x value-shape x expiry alphabet, with the dump order forced (shard placement for ShardedMap, every Range permutation for SyncMap through the sync.Map shim), for every backend pairing, 3-hop relays and a 300-entry cache; target Walk/Read compared with the source.",
     "Trusted: encoding/gob round-trips the chosen value alphabet (verified by the SM->SM cells themselves). Entry sequences longer than the bound are represented only by the 300-entry case.",
     "exhaustive enumeration of bounded input sequences in every iteration order on the implementation", "DESIGN.md §C13")
+
+chk("C02",
+    "Exhaustive enumeration of schedules (preemption-bounded) of concurrent Gets on the real Failover/FailoverOf, crossed with builder outcome scripts and with a backend Read/Write fault injected at every call position (deviation-bounded); every returned (value, error) pair is traced to a finished builder invocation for the same key, the preloaded content or the injected fault.",
+    "Trusted: token discipline of the harness (values carry key, origin, invocation index). Same scheduling granularity and bounds as C01; at most 1 (quick) / 2 (thorough) injected faults per execution.",
+    "stateless model checking of the implementation with fault enumeration (preemption- and deviation-bounded DFS)", "DESIGN.md §C02")
+chk("C03",
+    "Complete enumeration of the finite decision table (1536 cells incl. SyncRead and the three front-ends), each cell executed on the real code under the scheduler with all schedules of caller continuation and background build (unbounded, happens-before cached), compared with ref.FailoverTable written from the README.",
+    "Trusted: ref.FailoverTable as a faithful transcription of README bullets 2-7 (two ambiguous cells accept either documented outcome).",
+    "exhaustive enumeration of a finite configuration table + stateless model checking of each cell", "DESIGN.md §C03")
